@@ -73,6 +73,8 @@ type Net struct {
 	// WriteHook, when set, is consulted for every WritePkg (body code of the
 	// frame); a non-nil error is returned to the client as a write error.
 	WriteHook func(sess int, code int) error
+	// WriteHookFrame: the same with the decoded frame (nil when undecodable)
+	WriteHookFrame func(sess int, f *simtc.Frame) error
 	SpinLimit int
 	// InlineRead: dispatch all buffered packages back to back (C13).
 	InlineRead bool
@@ -445,8 +447,10 @@ func (s *Session) WritePkg(pkg interface{}, timeout time.Duration) (total int, s
 	// decode with the independent codec to learn the body code (for fault
 	// matching); undecodable frames are reported when delivered.
 	code := 0
+	var frame *simtc.Frame
 	if f, _, derr := simtc.DecodeFrame(b); derr == nil && f != nil && f.Body != nil {
 		code = f.Body.Code
+		frame = f
 	}
 	n.mu.Lock()
 	n.writes[0]++
@@ -455,6 +459,13 @@ func (s *Session) WritePkg(pkg interface{}, timeout time.Duration) (total int, s
 	n.mu.Unlock()
 	if n.WriteHook != nil {
 		if herr := n.WriteHook(s.id, code); herr != nil {
+			n.Sim.Fault("net-write-error")
+			n.Sim.Logf("NET s%d write error injected (code %d)", s.id, code)
+			return len(b), 0, herr
+		}
+	}
+	if n.WriteHookFrame != nil && frame != nil {
+		if herr := n.WriteHookFrame(s.id, frame); herr != nil {
 			n.Sim.Fault("net-write-error")
 			n.Sim.Logf("NET s%d write error injected (code %d)", s.id, code)
 			return len(b), 0, herr
